@@ -317,6 +317,26 @@ UNITS.append(dict(name="c01_kpiece1_iteration", template="C01/kpiece_iter.c", mo
                   canaries=[dict(name="cell_not_resorted_after_a_failed_expansion", where="body:kp_iteration", rx=r"UPDATE_CELL\(ecell\);", repl="if (keep) UPDATE_CELL(ecell);"),
                             dict(name="partial_motion_accepted_without_threshold", where="body:kp_iteration", rx=r"M_cid\[motion\] = \*xstate;", repl="M_cid[motion] = *xstate + 1;")]))
 
+BITF1 = "src/ompl/geometric/planners/informedtrees/src/BITstar.cpp"
+BP_RULES = [
+    (r"#ifdef BITSTAR_DEBUG.*?#endif", "", 0, re.S), (r"std::vector<const ompl::base::State \*> reversePath;", "rev_n = 0;", 0), (r"VertexConstPtr curVertex;", "VRef curVertex = NIL;", 0),
+    (r"graphPtr_->getTrackApproximateSolutions\(\)", "TRACK", 0), (r"graphPtr_->closestVertexToGoal\(\)", "CLOSEST", 0), (r"throw ompl::Exception\(\"[^\"]*\"\);", "{ thrown = 1; return; }", 0),
+    (r"reversePath\.push_back\(curVertex->state\(\)\);", "REV_PUSH(curVertex);", 0), (r"reversePath\.push_back\(curVertex->getParent\(\)->state\(\)\);", "REV_PUSH(V_parent[curVertex]);", 0),
+    (r"!curVertex->isRoot\(\)", "!IS_ROOT(curVertex)", 0), (r"curVertex = curVertex->getParent\(\)", "curVertex = V_parent[curVertex]", 0), (r"return reversePath;", "return;", 0),
+    (r"auto pathGeoPtr = std::make_shared<ompl::geometric::PathGeometric>\(Planner::si_\);", "path_n = 0;", 0), (r"reversePath = this->bestPathFromGoalToStart\(\);", "bit_bestPath(); if (thrown) return;", 0),
+    (r"for \(const auto &solnState : boost::adaptors::reverse\(reversePath\)\)\s*\{", "for (unsigned r_ = rev_n; r_ > 0; --r_) { VRef solnState = rev[r_ - 1];", 0), (r"pathGeoPtr->append\(solnState\);", "PATH_APPEND(solnState);", 0),
+    (r"ompl::base::PlannerSolution soln\(pathGeoPtr\);", "", 0), (r"soln\.setPlannerName\(Planner::getName\(\)\);", "", 0), (r"soln\.setApproximate\(graphPtr_->smallestDistanceToGoal\(\)\);", "{ sol_approx = true; sol_dif = SMALLEST; }", 0),
+    (r"soln\.setOptimized\(Planner::pdef_->getOptimizationObjective\(\), (\w+),\s*Planner::pdef_->getOptimizationObjective\(\)->isSatisfied\((\w+)\)\);", r"SET_OPTIMIZED(\1, OBJ_SATISFIED(\2));", 0),
+    (r"Planner::pdef_->addSolutionPath\(soln\);", "adds++;", 0),
+]
+BP_UNIT = dict(name="c01_bitstar_publishSolution", template="C01/bit_publish.c", mode="plain", entry="h_bit_publish", flags=["--bounds-check", "--pointer-check"], unwind=8, level="bounded", bound="chains of <= 4 vertices", backend="minisat", timeout=300,
+               functions=["ompl::geometric::BITstar::bestPathFromGoalToStart", "ompl::geometric::BITstar::publishSolution"],
+               sources=[dict(name="bit_bestPath", file=BITF1, sig=r"std::vector<const ompl::base::State \*> BITstar::bestPathFromGoalToStart\(\) const", rules=BP_RULES, loops={"allow_uncontracted": True}),
+                        dict(name="bit_publish", file=BITF1, sig=r"void BITstar::publishSolution\(\)", rules=BP_RULES, loops={"allow_uncontracted": True})],
+               canaries=[dict(name="path_published_goal_first", where="body:bit_publish", rx=r"for \(unsigned r_ = rev_n; r_ > 0; --r_\) \{ VRef solnState = rev\[r_ - 1\];", repl="for (unsigned r_ = 1; r_ <= rev_n; ++r_) { VRef solnState = rev[r_ - 1];"),
+                         dict(name="flag_for_another_cost", where="body:bit_publish", rx=r"OBJ_SATISFIED\(bestCost_\)", repl="OBJ_SATISFIED(bestCost_ + 1.0)")])
+UNITS.append(BP_UNIT)
+
 # roadmap planners: a new problem definition forgets the old query's start/goal milestones (otherwise the old query's path is reported for the new one) -- units of C03
 def _c03_query_units():
     sp = importlib.util.spec_from_file_location("c03q", os.path.join(os.path.dirname(__file__), "C03.py")); m = importlib.util.module_from_spec(sp)
